@@ -213,19 +213,35 @@ def check_property_file(pid: str) -> dict:
     prints = re.findall(r"Print Assumptions\s+(\w+)", src_nc)
     closed = out.count("Closed under the global context")
     axioms = []
-    for m in re.finditer(r"^Axioms:\n((?:.+\n)+?)(?=\n|\Z)", out, flags=re.M):
-        axioms.append(m.group(1))
+    cur = None
+    for ln in out.splitlines():
+        if ln.strip() == "Axioms:":
+            cur = []
+            axioms.append(cur)
+        elif ln.startswith("Closed under") or not ln.strip():
+            cur = None
+        elif cur is not None:
+            cur.append(ln)
+    axioms = ["\n".join(b) + "\n" for b in axioms]
     ax_names = set()
+    prim_names = set()
     for blk in axioms:
         for ln in blk.splitlines():
-            mm = re.match(r"^(\S+)\s*:", ln)
+            mm = re.match(r"^(\S+)\s*:\s*(.*)$", ln)
             if mm:
-                ax_names.add(mm.group(1))
+                # Coq's primitive machine integers / binary64 floats are listed by Print Assumptions but are
+                # not axioms of this development: names whose type only mentions the primitive types
+                ty = mm.group(2)
+                if (re.fullmatch(r"[\s()>-]*((float|PrimInt63\.int|bool|Set|comparison|float_comparison)[\s()>-]*)+", ty)
+                        and ("float" in ty or "PrimInt63.int" in ty)) or (mm.group(1) in ("float", "PrimInt63.int") and ty.strip() == "Set"):
+                    prim_names.add(mm.group(1))
+                else:
+                    ax_names.add(mm.group(1))
     return {
         "ok": rc == 0 and set(theorems) <= set(prints) and closed + len(axioms) == len(prints)
               and ax_names <= ALLOWED_AXIOMS,
         "rc": rc, "theorems": theorems, "printed": prints, "closed": closed,
-        "axioms": sorted(ax_names), "output_tail": out[-1500:],
+        "axioms": sorted(ax_names), "primitives": sorted(prim_names), "output_tail": out[-1500:],
         "cmd": f"cd {COQ} && coqc -Q . VD {vf}  (after make; Print Assumptions under every theorem)",
     }
 
